@@ -105,6 +105,18 @@ func progLine(s scn) string {
 			}
 		}
 		return fmt.Sprintf("prog createatomic tmpdir=%s optdir=%s mode=%s readfails=0", tmpdir, optdir, mode)
+	case "fetch":
+		if s.Var == "signed-main" || s.Var == "signed-sig" || s.Var == "missing-sig" {
+			return "" // two published files (resource and signature): checked through the recorded sequence only
+		}
+		hf, bf := "0", "0"
+		if s.Fail == "404" {
+			hf = "1"
+		}
+		if s.Fail == "short" {
+			bf = "1"
+		}
+		return fmt.Sprintf("prog fetch storage=R/dst mode=0 httpfails=%s bodyfails=%s", hf, bf)
 	case "file-unpack":
 		rf := "0"
 		if s.Fail == "corrupt" {
